@@ -402,17 +402,46 @@ func runC13(r *Run, p *Prog) {
 			r.Unresolved("M4", "handler that looks up Service.descriptions")
 			return
 		}
-		recv := h.Params[0].Name()
-		nameP := "param:" + h.Params[len(h.Params)-1].Name()
-		lk := "lookup(param:" + recv + "." + svcF.Descriptions + "," + nameP + ")"
+		// the lookup and its key (the handler's name parameter, or the decoded request member when the handler is
+		// written inside the dispatcher); governed are the returns after the lookup and those decided by the key
+		var lkI *ssa.Lookup
+		for _, b := range h.Blocks {
+			for _, in := range b.Instrs {
+				if x, ok := in.(*ssa.Lookup); ok && strings.HasSuffix(strip(T.T(x.X)), "."+svcF.Descriptions) {
+					lkI = x
+				}
+			}
+		}
+		lk := strip(T.T(lkI))
+		keyT := strip(T.T(lkI.Index))
+		after := map[*ssa.BasicBlock]bool{lkI.Block(): true}
+		for work := []*ssa.BasicBlock{lkI.Block()}; len(work) > 0; {
+			b := work[len(work)-1]
+			work = work[:len(work)-1]
+			for _, sc := range b.Succs {
+				if !after[sc] {
+					after[sc] = true
+					work = append(work, sc)
+				}
+			}
+		}
 		n := 0
 		for _, rv := range returnedValues(h, 0) {
 			c, ok := rv.Val.(*ssa.Call)
 			if !ok {
 				continue
 			}
-			n++
 			fs := T.FactsAt(rv.Ret.Block())
+			governed := after[rv.Ret.Block()]
+			for _, f := range fs {
+				if strings.Contains(strip(f.A), keyT) || strings.Contains(strip(f.B), keyT) {
+					governed = true
+				}
+			}
+			if !governed {
+				continue // another method of the built-in interface, or a request that could not be decoded
+			}
+			n++
 			found := false
 			for _, f := range fs {
 				if f.Op == "EQ" && (f.A == "const:true" && strip(f.B) == "ext("+lk+",1)" || f.B == "const:true" && strip(f.A) == "ext("+lk+",1)") {
@@ -460,11 +489,45 @@ func runC13(r *Run, p *Prog) {
 		// service-side structs
 		var srvIn, srvOut string
 		if d := builtinDispatcherOf(p, ro); d != nil {
-			for _, b := range d.Blocks {
-				for _, in := range b.Instrs {
-					if a, ok := in.(*ssa.Alloc); ok {
-						if st := derefStruct(a.Type()); st != nil && st.NumFields() == 1 && a.Comment == "in" {
-							srvIn = jsonKey(st, 0)
+			// the request struct: a one-member struct variable of the built-in dispatcher (or a helper of it) that is
+			// handed, as an interface value, to a repository function that decodes into it
+			decodes := func(t *ssa.Function) bool {
+				if t == nil {
+					return false
+				}
+				for g := range cg.Reach([]*ssa.Function{t}, true) {
+					for _, cs := range callsIn(g, false) {
+						if calleeName(cs.Common) == "json.Unmarshal" {
+							return true
+						}
+					}
+				}
+				return false
+			}
+			for g := range cg.Reach([]*ssa.Function{d}, true) {
+				if fnPkgPath(g) != pkgVarlink {
+					continue
+				}
+				for _, b := range g.Blocks {
+					for _, in := range b.Instrs {
+						a, ok := in.(*ssa.Alloc)
+						if !ok {
+							continue
+						}
+						st := derefStruct(a.Type())
+						if st == nil || st.NumFields() != 1 {
+							continue
+						}
+						for _, ref := range *a.Referrers() {
+							mi, ok := ref.(*ssa.MakeInterface)
+							if !ok {
+								continue
+							}
+							for _, r2 := range *mi.Referrers() {
+								if c, ok := r2.(*ssa.Call); ok && decodes(staticTarget(&c.Call)) {
+									srvIn = jsonKey(st, 0)
+								}
+							}
 						}
 					}
 				}
